@@ -131,33 +131,73 @@ Definition cx0 : ctx :=
 Definition lb (n : str) : label := named_label n.
 Definition T2 : ty := TNamed (Some src) (B "T2") [].
 
+(* The witnesses are evaluated by the VM; each statement is a boolean that spells out the
+   claim (stating them with nested existentials makes Qed re-check the instances by lazy
+   conversion, which takes minutes). *)
+Definition is_none {A} (o : option A) : bool := match o with None => true | Some _ => false end.
+Fixpoint strs_eqb (a b : list str) : bool :=
+  match a, b with
+  | [], [] => true
+  | x :: a', y :: b' => seqb x y && strs_eqb a' b'
+  | _, _ => false
+  end.
+
 (* known finding C14-name-captures-inner-type:  P5(T2 []T2)  in-package: the offered name T2
    equals the bare identifier used inside the composite type of the same signature, so
-   inside a method body "[]T2" no longer denotes the source type. *)
+   inside a method body "[]T2" no longer denotes the source type:
+     the file has one interface with one method with one variable v;  vname v = "T2";
+     capture_free = false;  the signature-level guard holds;  with the offered names in
+     scope (method body) the rendered type does not resolve. *)
 Definition if_capture : iface :=
   {| if_name := B "A"; if_struct := B "MkA"; if_tparams := [];
      if_methods := [(B "P5", {| sparams := [(lb (B "T2"), TSlice T2)]; svariadic := false; sresults := [] |})] |}.
-Theorem C14_capture_refuted :
+Definition capture_witness : bool :=
   let f := gen_file cx0 src true [if_capture] in
-  exists id d v, f_ifaces f = [id] /\ i_methods id = [d] /\ dvars d = [v] /\
-    vname v = B "T2" /\ capture_free d = false /\
-    var_guard cx0 (file_env src f [B "T2"] [] []) true v = true /\
-    resolve_rty (file_env src f [B "T2"] [] (map vname (dvars d))) (vrty v) = None.
-Proof. vm_compute. do 3 eexists. repeat split. Qed.
+  match f_ifaces f with
+  | [id] =>
+      match i_methods id with
+      | [d] =>
+          match dvars d with
+          | [v] => seqb (vname v) (B "T2") && negb (capture_free d) &&
+                   var_guard cx0 (file_env src f [B "T2"] [] []) true v &&
+                   is_none (resolve_rty (file_env src f [B "T2"] [] (map vname (dvars d))) (vrty v))
+          | _ => false
+          end
+      | _ => false
+      end
+  | _ => false
+  end.
+Theorem C14_capture_refuted : capture_witness = true.
+Proof. vm_compute. reflexivity. Qed.
 Print Assumptions C14_capture_refuted.
 
 (* known finding C14-lowercase-type-parameter:  type G[t any] interface{ M(x t) } :
-   TypeConstraint declares T (Exported) while the signature refers to t. *)
+   TypeInstantiation is [T] (Exported) while the signature refers to t: in a file that
+   declares the type parameters offered by the data model, "t" resolves to a (non-existent)
+   predeclared object t, whereas the source type is the type parameter t. *)
 Definition if_lower : iface :=
   {| if_name := B "G"; if_struct := B "MkG"; if_tparams := [(lb (B "t"), TAlias None (B "any") [])];
      if_methods := [(B "M", {| sparams := [(lb (B "x"), TParam (B "t"))]; svariadic := false; sresults := [] |})] |}.
-Theorem C14_typeparams_refuted :
+Definition lower_witness : bool :=
   let f := gen_file cx0 src true [if_lower] in
-  exists id d v, f_ifaces f = [id] /\ i_methods id = [d] /\ dvars d = [v] /\
-    type_instantiation cx0 id = [B "T"] /\
-    resolve_rty (file_env src f [] (type_instantiation cx0 id) []) (vrty v) = Some (TNamed None (B "t") []) /\
-    norm (vty v) = TParam (B "t").
-Proof. vm_compute. do 3 eexists. repeat split. Qed.
+  match f_ifaces f with
+  | [id] =>
+      match i_methods id with
+      | [d] =>
+          match dvars d with
+          | [v] => strs_eqb (type_instantiation cx0 id) [B "T"] &&
+                   match resolve_rty (file_env src f [] (type_instantiation cx0 id) []) (vrty v), norm (vty v) with
+                   | Some (TNamed None n []), TParam n' => seqb n (B "t") && seqb n' (B "t")
+                   | _, _ => false
+                   end
+          | _ => false
+          end
+      | _ => false
+      end
+  | _ => false
+  end.
+Theorem C14_typeparams_refuted : lower_witness = true.
+Proof. vm_compute. reflexivity. Qed.
 Print Assumptions C14_typeparams_refuted.
 
 (* Not guaranteed (and stated so): a name may equal a qualifier that a LATER method adds to
@@ -168,17 +208,25 @@ Definition if_later : iface :=
   {| if_name := B "L"; if_struct := B "MkL"; if_tparams := [];
      if_methods := [(B "A", {| sparams := [(lb (B "http"), TBasic (B "int"))]; svariadic := false; sresults := [] |});
                     (B "B", {| sparams := [(lb (B "x"), TNamed (Some (B "net/http")) (B "Request") [])]; svariadic := false; sresults := [] |})] |}.
-Theorem C14_names_file_qualifier_refuted :
+Definition later_witness : bool :=
   let f := gen_file cx0 src true [if_later] in
-  exists id d v, f_ifaces f = [id] /\ nth_error (i_methods id) 0 = Some d /\ dvars d = [v] /\
-    vname v = B "http" /\ In (B "http") (map qualifier (f_imports f)).
-Proof. vm_compute. do 3 eexists. repeat split. now left. Qed.
+  match f_ifaces f with
+  | [id] =>
+      match i_methods id with
+      | d :: _ => strs_eqb (map vname (dvars d)) [B "http"] && smem (B "http") (map qualifier (f_imports f))
+      | _ => false
+      end
+  | _ => false
+  end.
+Theorem C14_names_file_qualifier_refuted : later_witness = true.
+Proof. vm_compute. reflexivity. Qed.
 Print Assumptions C14_names_file_qualifier_refuted.
 
 (* ------------------------------------------------------------------------------------ *)
 (* Non-vacuity: two packages named http, a generic instantiation, a variadic parameter,
-   out-of-package; all guards hold, the second package gets the alias http0, and every
-   accessor denotes the source types. *)
+   out-of-package: the second http package gets the alias http0; the offered names are req,
+   vToBox, rest, err; capture_free and all scoping guards hold even at method-body level (so
+   C14_denote applies to every variable), and indeed every element of ArgList resolves. *)
 Definition if_ok : iface :=
   {| if_name := B "Svc"; if_struct := B "MkSvc"; if_tparams := [(lb (B "K"), TNamed None (B "comparable") [])];
      if_methods :=
@@ -186,13 +234,22 @@ Definition if_ok : iface :=
                                 (lb [], TMap (TParam (B "K")) (TNamed (Some (B "example.com/m/ext/http")) (B "Box") [(nolabel, TNamed (Some src) (B "Local") [])]));
                                 (lb (B "rest"), TSlice (TNamed (Some src) (B "Local") []))];
                     svariadic := true; sresults := [(lb [], TNamed None (B "error") [])] |})] |}.
-Example C14_example :
-  let f := gen_file cx0 (B "example.com/m/mocks") false [if_ok] in
-  exists id d, f_ifaces f = [id] /\ i_methods id = [d] /\
-    map (fun i => (ipath i, qualifier i)) (f_imports f)
-      = [(B "example.com/m/ext/http", B "http0"); (src, B "src"); (B "net/http", B "http")] /\
-    map vname (dvars d) = [B "req"; B "vToBox"; B "rest"; B "err"] /\ capture_free d = true /\
-    forallb (var_guard cx0 (file_env (B "example.com/m/mocks") f [] (type_instantiation cx0 id) (map vname (dvars d))) false) (ivars id) = true /\
-    map (den_arg (file_env (B "example.com/m/mocks") f [] (type_instantiation cx0 id) [])) (arg_list d)
-      = map (fun x => Some (norm (snd x))) (sparams (snd (nth 0 (if_methods if_ok) (B "", {| sparams := []; svariadic := false; sresults := [] |})))).
-Proof. vm_compute. do 2 eexists. repeat split. Qed.
+Definition ok_witness : bool :=
+  let dstp := B "example.com/m/mocks" in
+  let f := gen_file cx0 dstp false [if_ok] in
+  match f_ifaces f with
+  | [id] =>
+      match i_methods id with
+      | [d] =>
+          strs_eqb (map ipath (f_imports f)) [B "example.com/m/ext/http"; src; B "net/http"] &&
+          strs_eqb (map qualifier (f_imports f)) [B "http0"; B "src"; B "http"] &&
+          strs_eqb (map vname (dvars d)) [B "req"; B "vToBox"; B "rest"; B "err"] && capture_free d &&
+          forallb (var_guard cx0 (file_env dstp f [] (type_instantiation cx0 id) (map vname (dvars d))) false) (ivars id) &&
+          forallb (fun a => negb (is_none (den_arg (file_env dstp f [] (type_instantiation cx0 id) []) a))) (arg_list d) &&
+          strs_eqb (map (fun a => if a_ell a then B "..." else []) (arg_list d)) [[]; []; B "..."]
+      | _ => false
+      end
+  | _ => false
+  end.
+Example C14_example : ok_witness = true.
+Proof. vm_compute. reflexivity. Qed.
